@@ -441,6 +441,11 @@ pub const HOSTILE: &[&str] = &[
 ];
 
 fn gen_json_string(r: &mut Rng) -> String {
+    if r.chance(1, 150) {
+        // longer than the 1024-character limit that applies to YAML implicit keys (not to JSON members)
+        let n = r.range(1000, 1200);
+        return (0..n).map(|i| if i % 97 == 0 { 'é' } else { 'k' }).collect();
+    }
     match r.below(4) {
         0 | 1 => r.pick(HOSTILE).to_string(),
         2 => {
@@ -562,6 +567,12 @@ fn json_str(s: &str, r: &mut Rng, out: &mut String) {
 }
 
 fn ws(style: JStyle, r: &mut Rng, out: &mut String) {
+    if style == JStyle::RandomWs && r.chance(1, 400) {
+        for _ in 0..r.range(1020, 1100) {
+            out.push(r.pick(&[' ', ' ', '\t', '\n']));
+        }
+        return;
+    }
     if style == JStyle::RandomWs {
         for _ in 0..r.below(3) {
             out.push(r.pick(&[' ', ' ', '\t', '\n', '\r', ' ']));
